@@ -134,6 +134,8 @@ def BOUNDS(tier):
                           "nmax": a["c_nmax"], "npp": "int(2*pi*nr) (make_kl)"},
             "dim_scan": {"dense": "2..%d and %s" % (79 if tier == "quick" else 126, [d for d in dense if d > 126]),
                          "spot (dim, ri, nr, nmax)": spots, "largest_dim": max(max(dense), max(s[0] for s in spots))},
+            "cartesian_nr_scan": {"nr": "4..%d" % (72 if tier == "quick" else 140), "dim": 16, "ri": 0.25, "nmax": 3,
+                                  "npp": "int(2*pi*nr) (make_kl)"},
             "constructible_scan": {"ri": "k/%d, 0 < k < %d" % ((20, 20) if tier == "quick" else (100, 100)),
                                    "nr": [_scan(tier)[1][0], _scan(tier)[1][-1]], "nfunc": 2},
             "resolution_limit": "nr*npp/nfunc >= 8 and nfunc <= 5*nr - 2"}
@@ -246,6 +248,11 @@ def _extra_cases(tier):
     for dim, ri, nr, nm in spots:
         yield Case("cart:dim=%d:mask=1:ri=%g:nr=%d:nmax=%d" % (dim, ri, nr, nm),
                    {"kind": "cart", "dim": dim, "mask": True, "ri": ri, "nr": nr, "nmax": nm}, True)
+    # every radial sampling of a dense range through the Cartesian driver (its azimuthal sampling int(2 pi nr)
+    # and its polar-to-Cartesian geometry are built from nr; the polar lattice above does not reach them)
+    for nr in (range(4, 73) if tier == "quick" else range(4, 141)):
+        yield Case("cart:dim=16:mask=1:ri=0.25:nr=%d:nmax=3" % nr,
+                   {"kind": "cart", "dim": 16, "mask": True, "ri": 0.25, "nr": nr, "nmax": 3}, True)
     # the way the arguments are passed
     for ri, nr, nf, dim in ((0.3, 8, 6, 16), (0.25, 12, 10, 17)):
         yield Case("calling:ri=%g:nr=%d:nf=%d" % (ri, nr, nf),
